@@ -20,7 +20,7 @@ EXPLANATION = (
     "remove_enter_idle return a bool on every path, with both outcomes present; (5) SIB: the select and zmq loops (same state machine) agree on guards, helpers and results."
     ' Added after seed round 3: (7) a registry whose stored values are int parameters (file descriptors) is queried with `in` / `is not None`, never by the truthiness of the stored value.'
     " Round 4: the Twisted wrapper catches BaseException (the reactor swallows everything else); (8) self-made registry handles come from a counter, never from the registry's size; (9) the Twisted idle timer callback lowers its flag on every normal path."
-    " Round-4 triage: (10) an idle pass calls a callback only while it is still registered; (11) a dispatch batch (select, zmq) calls a watch only while it is still the registered one; (12) twisted's doRead returns nothing; (13) the zmq poll time-out is rounded up and an empty poller sleeps; (5, restated) select / zmq dispatch an alarm after a time-out or under an explicit due test, and do not require `not ready` (no starvation); (14) fdopen()/open() of a descriptor parameter passes closefd=False (the descriptor stays its caller's); (1, extended) the tornado wrapper catches BaseException like the twisted one (asyncio re-raises only SystemExit / KeyboardInterrupt itself); (15) every loop forgets an alarm - in the terms its remove_alarm() consults - before the callback runs."
+    " Round-4 triage: (10) an idle pass calls a callback only while it is still registered; (11) a dispatch batch (select, zmq) calls a watch only while it is still the registered one; (12) twisted's doRead returns nothing; (13) the zmq poll time-out is rounded up and an empty poller sleeps; (5, restated) select / zmq dispatch an alarm after a time-out or under an explicit due test, and do not require `not ready` (no starvation); (14) fdopen()/open() of a descriptor parameter passes closefd=False (the descriptor stays its caller's); (1, extended) the tornado wrapper catches BaseException like the twisted one (asyncio re-raises only SystemExit / KeyboardInterrupt itself); (15) every loop forgets an alarm - in the terms its remove_alarm() consults - before the callback runs; (16) a loop with a watch table plus per-watch objects registered with its host unregisters the old object when a descriptor is watched again."
 )
 NOT_DECIDED = "Exactly-once, not-before-due and due-order of alarms, watch repetition, idle-before-quiescence under all interleavings - scheduler semantics under time."
 ASSUMPTIONS = ["The behaviour of the foreign scheduling APIs on a raising callable (log and continue) is taken from their documentation and recorded in the per-class table."]
@@ -668,8 +668,45 @@ def rule_fired_alarm_forgotten(ctx: Ctx) -> RuleResult:
     return rr
 
 
+def rule_rewatch_replaces(ctx: Ctx) -> RuleResult:
+    """A loop that keeps its own table of watches keyed by the descriptor (`self._watch_files[fd] = x`) and, besides,
+    registers an object per watch with its host library (reactor.addReader(x)) has two registries to keep in step:
+    when the descriptor is already in the table, the object registered for it has to be unregistered before the
+    table entry is overwritten - the host keeps one reader per descriptor and ignores the second, so the *old*
+    callback would go on running and the new one never would (select / asyncio / zmq replace the callback)."""
+    p = ctx.p
+    rr = RuleResult("PAIR", "C13.16", "watch_file() on an already watched descriptor unregisters the object registered for it before overwriting the table entry", floor=1)
+    loops = dict(LOOPS)
+    loops["glib"] = GLIB
+    for key, q in loops.items():
+        wf = p.cls(q).methods.get("watch_file")
+        if wf is None:
+            continue
+        fdp = wf.params[1]
+        stores = [n for n in wf.own_nodes() if isinstance(n, ast.Assign) and any(isinstance(t, ast.Subscript) and isinstance(t.value, ast.Attribute) and ast.unparse(t.slice) == fdp for t in n.targets)]
+        regs = [c for c in wf.own_nodes() if isinstance(c, ast.Call) and isinstance(c.func, ast.Attribute) and c.func.attr in ("addReader",) and c.args]
+        if not stores or not regs:
+            continue
+        table = next(t.value.attr for n in stores for t in n.targets if isinstance(t, ast.Subscript))
+        cfg = cfg_of(wf)
+        tests = [t for t in cfg.nodes if t.kind == "test" and isinstance(t.ast, ast.Compare) and isinstance(t.ast.ops[0], ast.In) and ast.unparse(t.ast.left) == fdp and ast.unparse(t.ast.comparators[0]).endswith("." + table)]
+        unreg = [n for n in cfg.nodes if n.ast is not None and n.kind not in ("for", "with", "handler") and any(isinstance(x, ast.Call) and isinstance(x.func, ast.Attribute) and x.func.attr in ("removeReader",) and x.args and table in ast.unparse(x.args[0]) for x in walk_no_nested(n.ast))]
+        sn = [n for s_ in stores for n in cfg.stmt_nodes(s_)]
+        ok = bool(tests) and bool(unreg) and all(u in cfg.reachable_from_edges([(t, "T")]) for t in tests for u in unreg)
+        # the unregistration happens before the entry is overwritten: no path test -T-> store avoids it
+        if ok:
+            for t in tests:
+                r = cfg.reachable_from_edges([(t, "T")], avoid=unreg)
+                if any(s_node in r for s_node in sn):
+                    ok = False
+        rr.inst(f"{key}: {short(wf)}", True, {"loop": key, "table": table, "registered_with_host": [norm(c, 40) for c in regs], "replaces_old_watch": ok})
+        if not ok:
+            rr.add(finding("PAIR", wf, stores[0], f"`{norm(stores[0], 50)}` overwrites the watch recorded for `{fdp}` while the object registered for the old watch stays registered with the host ({norm(regs[0], 40)}): the host keeps one reader per descriptor and ignores the new one, so the old callback keeps running, the new one never runs, and remove_watch_file() later unregisters the wrong object", construct=f"{key}: re-watch does not unregister the old reader", informational=(q == GLIB)))
+    return rr
+
+
 def run(ctx: Ctx):
-    return [rule_wrap(ctx), rule_snap(ctx), rule_idle_arming(ctx), rule_remove_returns(ctx), rule_select_zmq(ctx), rule_trio_checkpoint(ctx), rule_presence(ctx), rule_handle_unique(ctx), rule_twisted_idle_flag(ctx), rule_idle_removed(ctx), rule_batch_dispatch(ctx), rule_doread_result(ctx), rule_zmq_wait(ctx), rule_descriptor_ownership(ctx), rule_fired_alarm_forgotten(ctx)]
+    return [rule_wrap(ctx), rule_snap(ctx), rule_idle_arming(ctx), rule_remove_returns(ctx), rule_select_zmq(ctx), rule_trio_checkpoint(ctx), rule_presence(ctx), rule_handle_unique(ctx), rule_twisted_idle_flag(ctx), rule_idle_removed(ctx), rule_batch_dispatch(ctx), rule_doread_result(ctx), rule_zmq_wait(ctx), rule_descriptor_ownership(ctx), rule_fired_alarm_forgotten(ctx), rule_rewatch_replaces(ctx)]
 
 
 from ..mutants import Mut  # noqa: E402
@@ -677,6 +714,7 @@ from ..mutants import Mut  # noqa: E402
 _S = "urwid/event_loop/select_loop.py"
 _A = "urwid/event_loop/asyncio_loop.py"
 MUTANTS = [
+    Mut("twisted-rewatch-keeps-old-reader", "urwid/event_loop/twisted_loop.py", "TwistedEventLoop.watch_file", "        if fd in self._watch_files:\n            # the reactor keeps one reader per descriptor and ignores a second one: replace the old watch\n            self.reactor.removeReader(self._watch_files[fd])\n", "", "PAIR|event_loop.twisted_loop.TwistedEventLoop.watch_file"),
     Mut("asyncio-fired-alarm-still-removable", _A, "AsyncioEventLoop.alarm", "            handle.cancel()\n            callback()", "            callback()", "ORDER|event_loop.asyncio_loop.AsyncioEventLoop.alarm"),
     Mut("trio-fired-alarm-still-removable", "urwid/event_loop/trio_loop.py", "TrioEventLoop._alarm_task", "            scope.cancel()\n            callback()", "            callback()", "ORDER|event_loop.trio_loop.TrioEventLoop._alarm_task"),
     Mut("tornado-alarm-forgotten-after-callback", "urwid/event_loop/tornado_loop.py", "TornadoEventLoop.alarm", "            with suppress(KeyError):\n                del self._pending_alarms[handle]\n\n            self.handle_exit(callback)()", "            self.handle_exit(callback)()\n            with suppress(KeyError):\n                del self._pending_alarms[handle]", "ORDER|event_loop.tornado_loop.TornadoEventLoop.alarm"),
